@@ -609,6 +609,49 @@ class BytesOf:
 
 
 # --------------------------------------------------------------------------------------------------------------
+# bytes / bytearray (added for the serdes bit layer, C06/C07)
+class BytesV:
+    """bytes (immutable) or bytearray (`mutable`): z3 array Int -> Int of byte values plus a length term.
+       `view` = (base_arr, base_len, start_byte, span): for 0 <= i < span the zero-extended byte i of this value is the
+       zero-extended byte start_byte + i of the base (provenance of slices / zero padding; see bittheory)."""
+
+    def __init__(self, arr, length, mutable=False, view=None, concrete=None, fresh=True):
+        self.arr = arr
+        self.length = length
+        self.mutable = mutable
+        self.view = view
+        self.concrete = concrete  # python bytes when the value is a literal
+        self.fresh = fresh
+
+    def __repr__(self):
+        return "<%s len=%s>" % ("bytearray" if self.mutable else "bytes", self.length)
+
+
+class _Bytes(Kind):
+    """Kind of a bytes / bytearray value: every element is a byte (0..255), the length is non-negative."""
+
+    def __init__(self, mutable=False):
+        self.mutable = mutable
+
+    def build(self, ctx, mk):
+        arr = mk("!bytes", z3.ArraySort(z3.IntSort(), z3.IntSort()))
+        n = mk("!len", z3.IntSort())
+        ctx.assume(n >= 0)
+        return BytesV(arr, n, mutable=self.mutable, fresh=self.mutable)  # a bytearray field is owned by its object
+
+    def sort(self):
+        raise EngineLimit("Bytes has no single sort")
+
+    def __repr__(self):
+        return "ByteArray" if self.mutable else "Bytes"
+
+
+Bytes = _Bytes(False)
+ByteArray = _Bytes(True)
+
+
+
+# --------------------------------------------------------------------------------------------------------------
 # Mutable object graphs (builders): materialised nested objects, concrete-length lists of them, defunctionalised closures
 class SymClosure:
     """A closure stored in a field, defunctionalised: `tag` 0 = None, k >= 1 = the lambda of the k-th site (a function of
@@ -836,3 +879,36 @@ class _Val(Kind):
 
 
 Val = _Val()
+
+
+# --------------------------------------------------------------------------------------------------------------
+class MutInvObjOf(MutObjOf):
+    """MutObjOf whose object additionally satisfies its class invariant (parameters / results such as the bit reader /
+       writer: every method of the class re-establishes the invariant, see `invariant_at_calls`)."""
+
+    def build(self, ctx, mk):
+        o = MutObjOf.build(self, ctx, lambda s, so: mk("!ref" + s if s == "" else s, so))
+        from .symexec import lift_bool
+
+        for label, inv in ctx.engine.class_invariants(ctx, o):
+            ctx.assume(lift_bool(inv))
+        return o
+
+    def __repr__(self):
+        return "MutInvObjOf(%s)" % self.clsname
+
+
+class _AnyValue(Kind):
+    """A Python value the contracts say nothing about (deserialized objects): opaque."""
+
+    def build(self, ctx, mk):
+        return Opaque("any value")
+
+    def sort(self):
+        raise EngineLimit("AnyValue has no sort")
+
+    def __repr__(self):
+        return "AnyValue"
+
+
+AnyValue = _AnyValue()
